@@ -117,11 +117,13 @@ C04T = ["astvalidation/c04_types.go"]
 PROPS["C04"] = dict(
     title="Operation validation accepts exactly the spec-valid operations",
     level_text="PARTIAL: bounded symbolic execution of the variable-usage compatibility kernel (operationTypeSatisfiesDefinitionType) against the spec's IsVariableUsageAllowed/AreTypesCompatible on all well-formed type chains up to the stated depth",
-    level_note="partial claim: only the value/type arithmetic kernels listed in evidence are decided; structural rules are outside (DESIGN.md §4 C04); trusted base: gosym, z3",
+    level_note="partial claim: variable-usage type compatibility (symbolic type chains) and two structural rules on finite instance families (field selection merging w.r.t. arguments, fragment spread possibility); the other validation rules are outside (DESIGN.md §4 C04); trusted base: gosym, z3",
     design_ref="DESIGN.md §4 C04",
     assumptions=["type chains are well formed (end at a named type, NonNull never wraps NonNull)"],
     stubs=[],
-    quick=[spec("H-C04a[5]", "./pkg/astvalidation", C04T, "VerifC04VariableUsage", [5], "all pairs of well-formed type chains of depth <= 5 over 3 type names, hasDefault symbolic", ["allowed", "not allowed"])],
+    quick=[spec("H-C04a[5]", "./pkg/astvalidation", C04T, "VerifC04VariableUsage", [5], "all pairs of well-formed type chains of depth <= 5 over 3 type names, hasDefault symbolic", ["allowed", "not allowed"]),
+           spec("H-C04b[0]", "./pkg/astvalidation", ["astvalidation/c04_rules.go"], "VerifC04Rules", [0], "field selection merging: every pair of 18 argument spellings (16 equivalence classes: ints, input object literals incl. nested and lists, lists, strings, enums, two arguments in both orders) on Query.echo under the same response key (plain or aliased) or different aliases; valid iff same key implies same arguments", ["mergeable", "conflict"]),
+           spec("H-C04b[1]", "./pkg/astvalidation", ["astvalidation/c04_rules.go"], "VerifC04Rules", [1], "fragment spread possibility: inline fragment on each of 9 types (4 unions, interface, 4 objects) inside a selection of 3 abstract parents; valid iff the possible types intersect", ["possible", "impossible"])],
     thorough=[spec("H-C04a[6]", "./pkg/astvalidation", C04T, "VerifC04VariableUsage", [6], "all pairs of well-formed type chains of depth <= 6 over 3 type names, hasDefault symbolic", ["allowed", "not allowed"])],
 )
 
